@@ -1,5 +1,5 @@
 ---- MODULE Itp_MassOnly ----
 (* instance wrapper for C11 (TLC evaluates zero-arity definitions eagerly: one module per instance) *)
 EXTENDS ItpRoundTripExport
-MCMols == MolsMassOnly(0)
+MCMols == TLCEval(MolsMassOnly(0))
 ====
